@@ -348,8 +348,8 @@ func computeLocksets(c *Ctx, scope map[*ssa.Function]bool, perInstance map[strin
 // local variable it was assigned to.
 func directClosureCalls(parent *ssa.Function, cl *ssa.Function) []ssa.Instruction {
 	var out []ssa.Instruction
-	for _, f := range withClosures(outermost(parent)) {
-		allInstrs(f, func(in ssa.Instruction) {
+	for _, f := range withClosures(lexicalOutermost(parent)) {
+		allInstrsShallow(f, func(in ssa.Instruction) {
 			ci, ok := in.(ssa.CallInstruction)
 			if !ok || ci.Common().IsInvoke() {
 				return
@@ -413,7 +413,7 @@ func isExportedFunc(fn *ssa.Function) bool {
 func (li *lockInfo) deferredClosureEntry(parent, cl *ssa.Function) (lockset, bool) {
 	var def *ssa.Defer
 	only := true
-	allInstrs(parent, func(in ssa.Instruction) {
+	allInstrsShallow(parent, func(in ssa.Instruction) {
 		mc, ok := in.(*ssa.MakeClosure)
 		if !ok || mc.Fn != ssa.Value(cl) {
 			return
@@ -439,7 +439,7 @@ func (li *lockInfo) deferredClosureEntry(parent, cl *ssa.Function) (lockset, boo
 	after := reach(parent, def, nil, nil)
 	for k := range at {
 		earlierDeferredUnlock, explicitUnlockAfter := false, false
-		allInstrs(parent, func(in ssa.Instruction) {
+		allInstrsShallow(parent, func(in ssa.Instruction) {
 			cls, mode, base, op, isLock := lockOp(in)
 			if !isLock || op != "unlock" || cls != k.Class || mode != k.Mode || (base != k.Base && li.perInstance[cls]) {
 				return
@@ -492,7 +492,7 @@ func (li *lockInfo) paramInvocationLockset(site ssa.Instruction, cl *ssa.Functio
 	var out lockset
 	found := false
 	for _, h := range withClosures(g) {
-		allInstrs(h, func(in ssa.Instruction) {
+		allInstrsShallow(h, func(in ssa.Instruction) {
 			c2, isC := in.(*ssa.Call)
 			if !isC || c2.Call.IsInvoke() || c2.Call.StaticCallee() != nil {
 				return
